@@ -233,7 +233,7 @@ func (g *G) Arg() ([]Piece, []string) {
 
 // ExtStmt draws a prefixed extension statement (never cardinality-checked, any argument).
 func (g *G) ExtStmt(depth, maxKids int) *Stmt {
-	s := &Stmt{Kw: []string{"x:ext", "y:note", "x:a-b", "ex:leaf", "p1:container"}[g.Pick(5, "extkw")]}
+	s := &Stmt{Kw: []string{"x:ext", "y:note", "x:a-b", "ex:leaf", "p1:container", "my.ext:note", "_x.y-z:a.b_c"}[g.Pick(7, "extkw")]}
 	s.T0 = g.Trivia(false, 3)
 	if g.Pick(5, "noarg") != 0 {
 		s.Pieces, s.Plus = g.Arg()
